@@ -143,7 +143,8 @@ def stimuli(tier, seed, ctx):
     for _ in range(nr):
         cfg = _rand_fsm(rnd)
         out.append({'cfg': cfg, 'args': {'reps': [_rep(rnd) for _ in range(8)]},
-                    'script': _rand_script(rnd, cfg, 14), 'stop_at': rnd.randint(3, 18), 'tail': 8})
+                    'script': _rand_script(rnd, cfg, 14), 'stop_at': rnd.randint(3, 18), 'tail': 8,
+                    'stopfault': 6 if rnd.random() < 0.2 else 0})
     # (iii) Timer
     for _ in range(nr // 2):
         per = rnd.random() < 0.25
@@ -157,14 +158,16 @@ def stimuli(tier, seed, ctx):
             args['t_on'] = 2            # (astable with zero delays is an endless chain: excluded)
         cfg = _timer_cfg(args)
         out.append({'cfg': cfg, 'args': args, 'script': _rand_script(rnd, cfg, 14),
-                    'stop_at': rnd.randint(3, 18), 'tail': 8})
+                    'stop_at': rnd.randint(3, 18), 'tail': 8,
+                    'stopfault': 6 if rnd.random() < 0.2 else 0})
     # (iv) InputExp
     for _ in range(nr // 2):
         args = {'duration': rnd.choice([NONEV, 0, 1, 2, 3, 4, INFV]), 'initv': rnd.choice([0, 0, 3]),
                 'reps': [_rep(rnd) for _ in range(8)]}
         cfg = _inputexp_cfg(args)
         out.append({'cfg': cfg, 'args': args, 'script': _rand_script(rnd, cfg, 14),
-                    'stop_at': rnd.randint(3, 18), 'tail': 8})
+                    'stop_at': rnd.randint(3, 18), 'tail': 8,
+                    'stopfault': 6 if rnd.random() < 0.2 else 0})
     return out
 
 
@@ -333,7 +336,21 @@ def execute(stim):
     def factory(loop, clock):
         async def main():
             circuit = edzed.get_circuit()
+            # blocks whose clean-up fails: the FSM must be stopped (its timer cancelled) all the same
+            nbad = stim.get('stopfault', 0)
+
+            class BadStop(edzed.SBlock):
+                def init_regular(self):
+                    self.set_output(0)
+
+                def stop(self):
+                    super().stop()
+                    raise RuntimeError('scripted stop() failure')
+            for i in range(nbad // 2):
+                BadStop(f'bad{i}')
             fsm = build()
+            for i in range(nbad // 2, nbad):
+                BadStop(f'bad{i}')
             st['fsm'], st['loop'] = fsm, loop
             edzed.Not('keepalive').connect(fsm)
             st['t0'], st['wall0'] = loop.time(), clock.time()
